@@ -1,4 +1,5 @@
 use crate::engine::Ctx;
 pub mod c01;
+pub mod c02;
 
-pub const ALL: &[(&str, fn(&Ctx))] = &[("C01", c01::run)];
+pub const ALL: &[(&str, fn(&Ctx))] = &[("C01", c01::run), ("C02", c02::run)];
